@@ -119,7 +119,7 @@ class Batch:
         for name, terms, fns in self.groups:
             for fn in fns:
                 self.res[(name, fn)] = []
-        with cf.ThreadPoolExecutor(max_workers=min(self.NSH, int(os.environ.get("VERIF_JOBS", "4")))) as ex:
+        with cf.ThreadPoolExecutor(max_workers=min(self.NSH, int(os.environ.get("VERIF_JOBS", "4" if self.ctx.quick else "8")))) as ex:
             for got in ex.map(one, files):
                 for name, fn, bad in got:
                     self.res[(name, fn)].extend(bad)
@@ -454,7 +454,7 @@ def run(ctx):
     table = table_gen(ctx, vh, batch)
     hists = {}
     for mode, args in (("sender", []),
-                       ("nhist", ["-seed", ctx.seed, "-n", 100 if ctx.quick else 2000]),
+                       ("nhist", ["-seed", ctx.seed, "-n", 100 if ctx.quick else 1500]),
                        ("ahist", ["-seed", ctx.seed, "-n", 60 if ctx.quick else 1000])):
         hists[mode] = hist_gen(ctx, vh, batch, mode, args)
     ops = ops_gen(ctx, vh, batch)
